@@ -1326,8 +1326,16 @@ std::string Generator::GeneratorImpl::generateOperatorCode(const std::string &op
         auto rightPrecedence = codePrecedence(astRightChild);
         auto associative = isPlusOperator(ast) || isTimesOperator(ast) || isAndOperator(ast) || isOrOperator(ast) || isXorOperator(ast);
 
-        astLeftChildCode = parenthesisedIfNeeded(astLeftChildCode, (leftPrecedence > 0) && (leftPrecedence < precedence));
-        astRightChildCode = parenthesisedIfNeeded(astRightChildCode, (rightPrecedence > 0) && ((rightPrecedence < precedence) || ((rightPrecedence == precedence) && !associative)));
+        // Note: a comparison or a logical not that is the left operand of a comparison, and a comparison that is its
+        //       right operand, are always parenthesised, e.g. "(a < b) == c", "a < (b < c)" and "(!a) < b", even where
+        //       the precedence rules do not require it: "a < b < c" and "!a < b" do not have their mathematical meaning
+        //       and C compilers warn about them (-Wparentheses, -Wlogical-not-parentheses).
+
+        auto comparison = isRelationalOperator(ast);
+        auto leftNot = (astLeftChild->type() == AnalyserEquationAst::Type::NOT) && mProfile->hasNotOperator();
+
+        astLeftChildCode = parenthesisedIfNeeded(astLeftChildCode, (leftPrecedence > 0) && ((leftPrecedence < precedence) || (comparison && (leftNot || isRelationalOperator(astLeftChild)))));
+        astRightChildCode = parenthesisedIfNeeded(astRightChildCode, (rightPrecedence > 0) && ((rightPrecedence < precedence) || ((rightPrecedence == precedence) && !associative) || (comparison && isRelationalOperator(astRightChild))));
     }
 
     return astLeftChildCode + op + astRightChildCode;
